@@ -1525,6 +1525,16 @@ impl AuthSession {
         webauthn: &Webauthn,
         pw_badlist: &HashSet<String>,
     ) -> Result<AuthState, OperationError> {
+        // The validity window is checked when the session is created. A session that was
+        // begun inside the window must not complete once the account is outside it.
+        if matches!(self.state, AuthSessionState::InProgress(_))
+            && !self.account.is_within_valid_time(time)
+        {
+            security_info!("Account is outside its validity window, denying");
+            self.state = AuthSessionState::Denied(ACCOUNT_EXPIRED);
+            return Ok(AuthState::Denied(ACCOUNT_EXPIRED.to_string()));
+        }
+
         let (next_state, response) = match &mut self.state {
             AuthSessionState::Init(_) | AuthSessionState::Success | AuthSessionState::Denied(_) => {
                 return Err(OperationError::InvalidAuthState(
